@@ -1,7 +1,7 @@
 (* C09/Comb.v — one lemma per way serde feeds a composite into the serializer: sequence, option-as-array, tuple,
    named struct, map, as_value wrapper (VARIANT), dict-struct (named struct under a{sv}), enum variants, struct-as-array.
    Each says: if the parts drive [ser] like the dynamic values v_i, the whole drives it like the composite value. *)
-From ZV Require Import Base.Bytes Base.Res Base.Sig Base.SigParse Base.SigParseFacts DBus.Val DBus.Spec DBus.Ser DBus.SerFacts DBus.SerProofs C09.Facts.
+From ZV Require Import Base.Bytes Base.Res Base.Sig Base.SigParse Base.SigParseFacts DBus.Val DBus.Spec DBus.Ser DBus.SerFacts DBus.SerProofs C09.Model C09.Spec C09.Facts.
 From Coq Require Import Lia.
 Local Open Scope N_scope.
 
@@ -211,4 +211,343 @@ Proof.
     fold p0 p1. rewrite !app_nil_r. fold body. apply weq_refl. }
   split; [|intros _; exact Sr].
   intros Edc. apply Dr. rewrite (D Edc). reflexivity.
+Qed.
+
+(* ---------- maps: the key leaves the serializer exact, the value may leave the signature cursor anywhere
+   (serialize_value resets it) but not the depth counters ---------- *)
+Lemma entriesx_ok o (xs : list (sval * sval)) (l : list (dval * dval)) :
+  Forall2 (fun x p => okw o (fst x) (fst p) true true /\ okw o (snd x) (snd p) true false) xs l -> forall st ks vs,
+  forallb (fun p => wf (fst p) && wf (snd p) && sig_eqb (vsig (fst p)) ks && sig_eqb (vsig (snd p)) vs) l = true ->
+  s_sig st = ks -> s_vsign st = None -> dep_ok (s_dep st) ->
+  forallb (fun p => depth_ok (d_struct (s_dep st)) (d_array (s_dep st)) (d_variant (s_dep st)) (fst p)
+                    && depth_ok (d_struct (s_dep st)) (d_array (s_dep st)) (d_variant (s_dep st)) (snd p)) l = true ->
+  nfd st + N.of_nat (length (concat (map (fun p => fds_of (fst p) ++ fds_of (snd p)) l))) < 2 ^ 32 ->
+  len (mentries (s_e st) ByOccurrence l (abs_pos st) (nfd st)) < 2 ^ 32 ->
+  (o = true -> c_oaa (s_cfg st) = true) ->
+  ser_entries xs ks vs st
+  = Ok (grow st (mentries (s_e st) ByOccurrence l (abs_pos st) (nfd st))
+               (concat (map (fun p => fds_of (fst p) ++ fds_of (snd p)) l))).
+Proof.
+  induction 1 as [|[xk xv] [k x] xs l [Hk Hx] Hl IH]; intros st ks vs Hw Hs Hv Hd Hdep Hn Hlen Ho.
+  - cbn. now rewrite grow_nil.
+  - cbn [fst snd] in Hk, Hx.
+    cbn [forallb fst snd] in Hw, Hdep. apply andb_true_iff in Hw as [Hw1 Hw].
+    apply andb_true_iff in Hw1 as [Hw1 Hsx]. apply andb_true_iff in Hw1 as [Hw1 Hsk]. apply andb_true_iff in Hw1 as [Hwk Hwx].
+    apply sig_eqb_eq in Hsk, Hsx. apply andb_true_iff in Hdep as [Hd1 Hdep]. apply andb_true_iff in Hd1 as [Hdk Hdx].
+    cbn [map concat mentries fst snd] in *. rewrite !app_length, !Nat2N.inj_add in Hn. rewrite !len_app in Hlen.
+    cbn [ser_entries]. rewrite padded_grow.
+    set (b0 := pad (abs_pos st) 8) in *.
+    set (st1 := grow st b0 []).
+    assert (P1 : abs_pos st1 = abs_pos st + len b0) by (subst st1; now rewrite abs_pos_grow).
+    assert (N1 : nfd st1 = nfd st) by (subst st1; rewrite nfd_grow; cbn; lia).
+    assert (G := okw_exact o xk k st1 Hk Hwk ltac:(subst st1; rewrite sig_grow; congruence) Hv (conj Hd Hdk)).
+    change (s_e st1) with (s_e st) in G. change (s_cfg st1) with (s_cfg st) in G. rewrite P1, N1 in G.
+    specialize (G ltac:(unfold nfds; lia) ltac:(lia) Ho). rewrite G. cbn [bind].
+    set (b1 := marshal (s_e st) ByOccurrence k (abs_pos st + len b0) (nfd st)) in *.
+    assert (A1 : after st1 k = grow st (b0 ++ b1) (fds_of k)).
+    { unfold after. change (s_e st1) with (s_e st). rewrite P1, N1. fold b1. subst st1. now rewrite grow_grow. }
+    rewrite A1.
+    set (st2 := set_sig (grow st (b0 ++ b1) (fds_of k)) vs).
+    assert (P2 : abs_pos st2 = abs_pos st + len b0 + len b1).
+    { subst st2. change (abs_pos (set_sig (grow st (b0 ++ b1) (fds_of k)) vs)) with (abs_pos (grow st (b0 ++ b1) (fds_of k))).
+      rewrite abs_pos_grow, len_app. lia. }
+    assert (N2 : nfd st2 = nfd st + nfds k).
+    { subst st2. change (nfd (set_sig (grow st (b0 ++ b1) (fds_of k)) vs)) with (nfd (grow st (b0 ++ b1) (fds_of k))).
+      now rewrite nfd_grow. }
+    destruct (Hx st2 Hwx ltac:(subst st2; cbn; congruence) Hv (conj Hd Hdx)
+                 ltac:(rewrite N2; unfold nfds in *; lia)
+                 ltac:(change (s_e st2) with (s_e st); rewrite P2, N2; lia) Ho) as (st3 & E3 & W3 & D3 & _).
+    rewrite E3. cbn [bind].
+    set (b2 := marshal (s_e st) ByOccurrence x (abs_pos st + len b0 + len b1) (nfd st + nfds k)) in *.
+    assert (A2 : set_sig st3 ks = grow st (b0 ++ b1 ++ b2) (fds_of k ++ fds_of x)).
+    { assert (A : set_sig st3 ks = set_sig (after st2 x) ks).
+      { destruct W3 as (W1 & W2 & W4 & W5 & W6 & W7). apply sstate_ext; cbn; try assumption; try reflexivity.
+        rewrite (D3 eq_refl). reflexivity. }
+      rewrite A. unfold after. change (s_e st2) with (s_e st). rewrite P2, N2. fold b2. subst st2.
+      rewrite set_sig_grow. change (set_sig (set_sig (grow st (b0 ++ b1) (fds_of k)) vs) ks) with (set_sig (grow st (b0 ++ b1) (fds_of k)) ks).
+      rewrite set_sig_grow. rewrite <- Hs, set_sig_id, grow_grow, <- app_assoc. reflexivity. }
+    rewrite A2.
+    set (st4 := grow st (b0 ++ b1 ++ b2) (fds_of k ++ fds_of x)).
+    assert (G3 := IH st4 ks vs Hw ltac:(subst st4; rewrite sig_grow; assumption) Hv).
+    subst st4. rewrite dep_grow, e_grow, cfg_grow, abs_pos_grow, nfd_grow, !len_app, app_length, Nat2N.inj_add in G3.
+    replace (abs_pos st + (len b0 + (len b1 + len b2))) with (abs_pos st + len b0 + len b1 + len b2) in G3 by lia.
+    replace (nfd st + (N.of_nat (length (fds_of k)) + N.of_nat (length (fds_of x)))) with (nfd st + nfds k + nfds x) in G3 by (unfold nfds; lia).
+    specialize (G3 Hd Hdep ltac:(unfold nfds in *; lia) ltac:(lia) Ho). rewrite G3.
+    rewrite grow_grow, <- !app_assoc. reflexivity.
+Qed.
+
+Lemma mapx_ok o xs ks vs l :
+  Forall2 (fun x p => okw o (fst x) (fst p) true true /\ okw o (snd x) (snd p) true false) xs l ->
+  okw o (XMap xs) (VDict ks vs l) true true.
+Proof.
+  intros HF. apply okw_of_exact. intros st Hw Hs Hv [Hd Hdep] Hn Hlen Ho. cbn [vsig] in Hs. rewrite (ser_map _ st ks vs Hs).
+  cbn [wf] in Hw. apply andb_true_iff in Hw as [Hw0 Hw].
+  cbn [depth_ok] in Hdep. apply andb_true_iff in Hdep as [Hdep Hdl]. apply andb_true_iff in Hdep as [Ha Ht].
+  apply N.leb_le in Ha, Ht.
+  destruct (inc_array_ok (s_dep st) Hd Ha Ht) as (d' & Hinc & Hdec & Hd' & E1 & E2 & E3).
+  rewrite marshal_dict in Hlen. cbv zeta in Hlen. rewrite !len_app in Hlen.
+  set (p0 := pad (abs_pos st) 4) in *. set (p1 := pad (abs_pos st + len p0 + 4) 8) in *.
+  set (st' := set_dep (set_sig (grow st (p0 ++ enc (s_e st) 4 0 ++ p1) []) ks) d').
+  assert (Hpos : abs_pos st' = abs_pos st + len p0 + 4 + len p1).
+  { subst st'. change (abs_pos (set_dep (set_sig (grow st (p0 ++ enc (s_e st) 4 0 ++ p1) []) ks) d'))
+      with (abs_pos (grow st (p0 ++ enc (s_e st) 4 0 ++ p1) [])). rewrite abs_pos_grow, !len_app, len_enc. lia. }
+  assert (Hnf : nfd st' = nfd st).
+  { subst st'. change (nfd (set_dep (set_sig (grow st (p0 ++ enc (s_e st) 4 0 ++ p1) []) ks) d'))
+      with (nfd (grow st (p0 ++ enc (s_e st) 4 0 ++ p1) [])). rewrite nfd_grow. cbn. lia. }
+  pose proof (entriesx_ok o xs l HF st' ks vs Hw eq_refl Hv) as He.
+  change (s_dep st') with d' in He. change (s_e st') with (s_e st) in He. change (s_cfg st') with (s_cfg st) in He.
+  rewrite E1, E2, E3, Hpos, Hnf in He.
+  specialize (He Hd' Hdl). cbn [fds_of nfds] in Hn. unfold nfds in Hn. cbn [fds_of] in Hn.
+  specialize (He ltac:(lia) ltac:(lia) Ho).
+  rewrite (seq_wrap st ks 8 d' (ser_entries _ ks vs) _ _
+             (or_intror (ex_intro _ vs (conj Hs eq_refl))) Hinc Hdec He) by lia.
+  unfold after. rewrite marshal_dict. cbv zeta. fold p0 p1. reflexivity.
+Qed.
+
+(* a named struct under a DICT signature (SerializeDict's helper struct) is a map from field names to values *)
+Lemma ser_nentries_entries l ks vs st :
+  ser_nentries l ks vs st = ser_entries (map (fun p => (XStr (fst p), snd p)) l) ks vs st.
+Proof.
+  revert st. induction l as [|[n y] l IH]; intros st; [reflexivity|].
+  cbn [ser_nentries ser_entries map fst snd]. change (ser (XStr n) (padded st 8)) with (ser_str (padded st 8) n).
+  destruct (ser_str (padded st 8) n); [|reflexivity|reflexivity]. cbn [bind].
+  destruct (ser y (set_sig a vs)); [|reflexivity|reflexivity]. cbn [bind]. apply IH.
+Qed.
+Lemma named_as_map nl st ks vs : s_sig st = SDict ks vs ->
+  ser (XStruct nl) st = ser (XMap (map (fun p => (XStr (fst p), snd p)) nl)) st.
+Proof.
+  intros Hs. rewrite ser_struct_named, (ser_map _ st ks vs Hs). unfold struct_begin. rewrite Hs. cbn [align_of align_dbus bind].
+  assert (Hs' : s_sig (padded st 4) = SDict ks vs) by (rewrite padded_grow, sig_grow; exact Hs).
+  rewrite Hs'. rewrite seq_begin_padded.
+  destruct (seq_begin st) as [[[[s1 start] fp] asig]| |]; [|reflexivity|reflexivity]. cbn [bind].
+  rewrite ser_nentries_entries. reflexivity.
+Qed.
+
+(* ---------- as_value: a value wrapped as a VARIANT ---------- *)
+Lemma variantx_ok o y x : okw o y x false false -> okw o (XStruct [(B "signature", XStr (show (vsig x))); (B "value", y)]) (VVariant x) true true.
+Proof.
+  intros Hx. apply okw_of_exact. intros st Hw Hs Hv [Hd Hdep] Hn Hlen Ho. rewrite ser_struct_named.
+  cbn [wf] in Hw. apply andb_true_iff in Hw as [Hw Hl255]. apply andb_true_iff in Hw as [Hw Hso].
+  apply N.leb_le in Hl255. cbn [vsig] in Hs.
+  cbn [depth_ok] in Hdep. apply andb_true_iff in Hdep as [Ht Hdx]. apply N.leb_le in Ht.
+  destruct (inc_variant_ok (s_dep st) Hd Ht) as (d' & Hinc & Hd' & E1 & E2 & E3).
+  unfold struct_begin. rewrite Hs. cbn [align_of align_dbus bind]. rewrite padded_grow, pad_1, grow_nil.
+  rewrite Hs, Hinc. cbn [bind].
+  set (g := vsig x) in *. set (sg := show g) in *.
+  set (hdr := nb (len sg) :: sg ++ [x00]).
+  cbn [marshal] in Hlen. fold g sg hdr in Hlen. rewrite len_app in Hlen.
+  set (st1 := set_dep st d').
+  cbn [ser_nfields]. unfold field_sig at 1. change (s_sig st1) with (s_sig st). rewrite Hs.
+  change (s_vsign st1) with (s_vsign st). rewrite Hv. cbn [bind].
+  cbn [ser]. unfold ser_str. change (s_sig (sub_of st1 SVariant)) with SVariant. cbn [align_of align_dbus bind].
+  rewrite padded_grow, pad_1, grow_nil. change (s_sig (sub_of st1 SVariant)) with SVariant.
+  change (c_gv (s_cfg (sub_of st1 SVariant))) with (c_gv (s_cfg st)).
+  pose proof (parse_show (c_gv (s_cfg st)) g (single_printable g Hso)) as Hps. fold sg in Hps. rewrite Hps. cbn [bind].
+  destruct (N.leb_spec (len sg) 255) as [_|]; [|lia]. cbn [bind].
+  rewrite !wr_grow, !grow_grow. cbn [app].
+  unfold field_sig. cbn [s_sig s_vsign back_from set_vsign set_fds set_out grow set_sig sub_of set_dep bind].
+  set (st2 := sub_of (back_from st1 (grow (set_vsign (sub_of st1 SVariant) (Some g)) (nb (len sg) :: sg ++ [x00]) [])) g).
+  assert (Hp2 : abs_pos st2 = abs_pos st + len hdr).
+  { subst st2 st1. clear. destruct st. unfold abs_pos, written. cbn -[len]. rewrite len_app. fold hdr. lia. }
+  assert (Hn2 : nfd st2 = nfd st).
+  { subst st2 st1. clear. destruct st. unfold nfd. cbn -[add_fds]. rewrite add_fds_nil. reflexivity. }
+  assert (Hfit : fits d' x) by (split; [exact Hd'|rewrite E1, E2, E3; exact Hdx]).
+  cbn [fds_of] in Hn. unfold nfds in Hn. cbn [fds_of] in Hn.
+  destruct (Hx st2 Hw eq_refl eq_refl Hfit ltac:(rewrite Hn2; unfold nfds; lia)
+               ltac:(change (s_e st2) with (s_e st); rewrite Hp2, Hn2; lia) Ho) as (st3 & E & W & _ & _).
+  change (s_sig st1) with (s_sig st). rewrite Hs. cbn [bind]. fold st2. rewrite E. cbn [bind]. f_equal.
+  destruct W as (W1 & W2 & W3 & W4 & W5 & W6).
+  unfold after in *. rewrite Hp2, Hn2 in *. change (s_e st2) with (s_e st) in *. cbn [marshal]. fold g sg hdr.
+  subst st2 st1. apply sstate_ext; try reflexivity.
+  - cbn -[len marshal app N.add] in *. rewrite W4. unfold hdr. rewrite <- ?app_assoc. cbn [app]. rewrite <- ?app_assoc. reflexivity.
+  - cbn in *. rewrite W5. now rewrite Hv.
+  - cbn -[add_fds] in *. rewrite W6. rewrite ?add_fds_nil. reflexivity.
+Qed.
+
+(* ---------- small leaves ---------- *)
+(* `struct S {}` / [T; 0]: StructSerializer::unit writes one zero byte *)
+Lemma empty_struct_ok o : okw o (XStruct []) (VU8 0) true true.
+Proof.
+  apply okw_of_exact. intros st _ Hs _ _ _ _ _. rewrite ser_struct_named. unfold struct_begin. cbn [vsig] in Hs. rewrite Hs.
+  cbn [align_of align_dbus bind]. rewrite padded_grow, pad_1, grow_nil. rewrite Hs. rewrite basic_after. cbn [bind ser_nfields].
+  rewrite dep_grow, set_dep_grow, set_dep_id. unfold after. cbn [marshal fds_of]. rewrite pad_1. cbn [app].
+  destruct (s_e st); reflexivity.
+Qed.
+Lemma unit_variant_u32 o idx name : okw o (XUnitVariant idx name) (VU32 idx) true true.
+Proof.
+  apply okw_of_exact. intros st _ Hs _ _ _ _ _. cbn [ser]. cbn [vsig] in Hs. rewrite Hs. rewrite basic_after.
+  unfold after. cbn [marshal fds_of]. now rewrite enc_mod32.
+Qed.
+Lemma unit_variant_str o idx name : okw o (XUnitVariant idx name) (VStr name) true true.
+Proof.
+  apply okw_of_exact. intros st Hw Hs Hv Hf Hn Hl _. cbn [ser]. cbn [vsig] in Hs. rewrite Hs.
+  exact (ser_good (VStr name) eq_refl st Hw Hs Hv Hf Hn Hl).
+Qed.
+
+(* ---------- enum variants: StructSerializer::enum_variant ---------- *)
+Definition enum_begin (st : sstate) (idx : N) : res cerr (sstate * nat * depths) :=
+  match s_sig st with
+  | SStruct fs =>
+      let inner := match nth_error fs 1 with Some (SStruct g) => Some (SStruct g) | _ => None end in
+      let st := padded st 8 in
+      let saved := s_dep st in
+      let* d := inc_struct (s_dep st) in
+      let st := set_dep st d in
+      let* (g, i1) := field_sig st 0 in
+      let* sub := basic (sub_of st g) 4 4 (idx mod 2 ^ 32) in
+      let st := back_from st sub in
+      match inner with
+      | Some g' => Ok (set_sig (padded st 8) g', 0%nat, saved)
+      | None => Ok (st, i1, saved)
+      end
+  | _ => Err ESigMismatch
+  end.
+Lemma ser_newtype_variant idx y st :
+  ser (XNewtypeVariant idx y) st = let* (st, i, saved) := enum_begin st idx in ser_fields [y] i st.
+Proof. reflexivity. Qed.
+Lemma ser_tuple_variant idx l st :
+  ser (XTupleVariant idx l) st = let* (st, i, saved) := enum_begin st idx in let* st := ser_fields l i st in Ok (set_dep st saved).
+Proof. reflexivity. Qed.
+Lemma ser_struct_variant idx l st :
+  ser (XStructVariant idx l) st = let* (st, i, saved) := enum_begin st idx in let* st := ser_nfields l i st in Ok (set_dep st saved).
+Proof. reflexivity. Qed.
+
+Lemma back_grow st g b h : s_vsign st = None -> back_from st (grow (sub_of st g) b h) = grow st b h.
+Proof. intros Hv. apply sstate_ext; try reflexivity. cbn. now rewrite Hv. Qed.
+
+(* the state after the variant number has been written *)
+Definition after_idx (st : sstate) (idx : N) (d' : depths) : sstate :=
+  let p0 := pad (abs_pos st) 8 in
+  set_dep (grow st (p0 ++ pad (abs_pos st + len p0) 4 ++ enc (s_e st) 4 idx) []) d'.
+
+Lemma enum_begin_ok st idx g d' : s_sig st = SStruct [SU32; g] -> s_vsign st = None -> inc_struct (s_dep st) = Ok d' ->
+  enum_begin st idx =
+  match g with
+  | SStruct gs => Ok (set_sig (padded (after_idx st idx d') 8) (SStruct gs), 0%nat, s_dep st)
+  | _ => Ok (after_idx st idx d', 1%nat, s_dep st)
+  end.
+Proof.
+  intros Hs Hv Hinc. unfold enum_begin. rewrite Hs. cbn [nth_error].
+  rewrite padded_grow, dep_grow, Hinc. cbn [bind].
+  set (p0 := pad (abs_pos st) 8).
+  unfold field_sig. change (s_sig (set_dep (grow st p0 []) d')) with (s_sig st). rewrite Hs. cbn [nth_error bind].
+  rewrite basic_after. cbn [bind].
+  change (abs_pos (sub_of (set_dep (grow st p0 []) d') SU32)) with (abs_pos (grow st p0 [])). rewrite abs_pos_grow.
+  change (s_e (sub_of (set_dep (grow st p0 []) d') SU32)) with (s_e st).
+  rewrite back_grow by exact Hv. rewrite enc_mod32.
+  assert (E : grow (set_dep (grow st p0 []) d') (pad (abs_pos st + len p0) 4 ++ enc (s_e st) 4 idx) [] = after_idx st idx d').
+  { unfold after_idx. fold p0. rewrite <- set_dep_grow, grow_grow. reflexivity. }
+  rewrite E. destruct g; reflexivity.
+Qed.
+
+Lemma after_idx_props st idx d' :
+  abs_pos (after_idx st idx d') = abs_pos st + len (pad (abs_pos st) 8) + len (pad (abs_pos st + len (pad (abs_pos st) 8)) 4) + 4
+  /\ nfd (after_idx st idx d') = nfd st /\ s_sig (after_idx st idx d') = s_sig st /\ s_vsign (after_idx st idx d') = s_vsign st
+  /\ s_dep (after_idx st idx d') = d' /\ s_e (after_idx st idx d') = s_e st /\ s_cfg (after_idx st idx d') = s_cfg st.
+Proof.
+  unfold after_idx. cbv zeta. repeat split; try reflexivity.
+  - change (abs_pos (set_dep ?s d')) with (abs_pos s). rewrite abs_pos_grow, !len_app, len_enc. lia.
+  - change (nfd (set_dep ?s d')) with (nfd s). rewrite nfd_grow. cbn. lia.
+Qed.
+
+(* newtype variant `V(T)`, T's signature not a STRUCT: the depth counter stays incremented (no end()) *)
+Lemma newtype_variantx_ok o idx y v : is_struct_sig (vsig v) = false -> okw o y v false false ->
+  okw o (XNewtypeVariant idx y) (VStruct [VU32 idx; v]) false true.
+Proof.
+  intros Hns Hy st Hw Hs Hv [Hd Hdep] Hn Hlen Ho. rewrite ser_newtype_variant.
+  cbn [wf forallb] in Hw. apply andb_true_iff in Hw as [_ Hw]. apply andb_true_iff in Hw as [_ Hw]. apply andb_true_iff in Hw as [Hwv _].
+  cbn [vsig map] in Hs.
+  cbn [depth_ok forallb] in Hdep. apply andb_true_iff in Hdep as [Hdep Hdl]. apply andb_true_iff in Hdep as [Ha Ht].
+  apply andb_true_iff in Hdl as [_ Hdl]. apply andb_true_iff in Hdl as [Hdv _]. apply N.leb_le in Ha, Ht.
+  destruct (inc_struct_ok (s_dep st) Hd Ha Ht) as (d' & Hinc & Hd' & E1 & E2 & E3).
+  rewrite (enum_begin_ok st idx (vsig v) d' Hs Hv Hinc).
+  assert (Hb : (match vsig v with
+                | SStruct gs => Ok (set_sig (padded (after_idx st idx d') 8) (SStruct gs), 0%nat, s_dep st)
+                | _ => Ok (after_idx st idx d', 1%nat, s_dep st)
+                end : res cerr (sstate * nat * depths)) = Ok (after_idx st idx d', 1%nat, s_dep st)).
+  { destruct (vsig v); try reflexivity. discriminate Hns. }
+  rewrite Hb. cbn [bind]. clear Hb.
+  destruct (after_idx_props st idx d') as (Pp & Pn & Ps & Pv & Pd & Pe & Pc).
+  rewrite marshal_struct in Hlen. cbv zeta in Hlen. cbn [mseq marshal] in Hlen. rewrite !len_app, len_enc in Hlen.
+  cbn [fds_of nfds] in Hn. unfold nfds in Hn. cbn [fds_of map concat length app] in Hn. rewrite app_nil_r in Hn.
+  set (p0 := pad (abs_pos st) 8) in *. set (p1 := pad (abs_pos st + len p0) 4) in *.
+  pose proof (fieldsx_ok o [y] [v] ltac:(repeat constructor; exact Hy) (after_idx st idx d') [SU32]) as G.
+  rewrite Ps, Pv, Pd, Pe, Pc, Pp, Pn in G. fold p0 p1 in G. cbn [map app length concat forallb mseq] in G.
+  rewrite app_nil_r, E1, E2, E3 in G. rewrite Hwv, Hdv in G.
+  replace (nfd st + nfds (VU32 idx)) with (nfd st) in Hlen by (unfold nfds; cbn; lia).
+  replace (abs_pos st + len p0 + (len p1 + N.of_nat 4)) with (abs_pos st + len p0 + len p1 + 4) in Hlen by lia.
+  specialize (G Hs Hv eq_refl Hd' eq_refl ltac:(lia) ltac:(rewrite len_app; cbn [len length]; lia) Ho).
+  rewrite G. eexists. split; [reflexivity|]. split.
+  - unfold after. rewrite marshal_struct. cbv zeta. cbn [mseq marshal fds_of map concat]. fold p0 p1.
+    replace (nfd st + nfds (VU32 idx)) with (nfd st) by (unfold nfds; cbn; lia).
+    replace (abs_pos st + len p0 + len (p1 ++ enc (s_e st) 4 idx)) with (abs_pos st + len p0 + len p1 + 4) by (rewrite len_app, len_enc; lia).
+    unfold after_idx. cbv zeta. fold p0 p1. rewrite <- set_dep_grow, grow_grow.
+    eapply weq_trans; [apply weq_set_dep|]. rewrite <- !app_assoc, !app_nil_r. cbn [app]. apply weq_refl.
+  - split; [discriminate|]. intros _. reflexivity.
+Qed.
+
+(* tuple / struct variant: the serializer "pretends to be the inner struct" and never restores its signature cursor *)
+Lemma fields_variantx_ok o idx xs l : Forall2 (fun x v => okw o x v false false) xs l ->
+  forall st, wf (VStruct [VU32 idx; VStruct l]) = true -> s_sig st = vsig (VStruct [VU32 idx; VStruct l]) -> s_vsign st = None ->
+  fits (s_dep st) (VStruct [VU32 idx; VStruct l]) -> nfd st + nfds (VStruct [VU32 idx; VStruct l]) < 2 ^ 32 ->
+  len (marshal (s_e st) ByOccurrence (VStruct [VU32 idx; VStruct l]) (abs_pos st) (nfd st)) < 2 ^ 32 ->
+  (o = true -> c_oaa (s_cfg st) = true) ->
+  exists st', (let* (st1, i, saved) := enum_begin st idx in let* st2 := ser_fields xs i st1 in Ok (set_dep st2 saved)) = Ok st'
+              /\ weq st' (after st (VStruct [VU32 idx; VStruct l])) /\ s_dep st' = s_dep st.
+Proof.
+  intros HF st Hw Hs Hv [Hd Hdep] Hn Hlen Ho.
+  cbn [wf forallb] in Hw. apply andb_true_iff in Hw as [_ Hw]. apply andb_true_iff in Hw as [_ Hw]. apply andb_true_iff in Hw as [Hwl _].
+  apply andb_true_iff in Hwl as [_ Hwl]. cbn [vsig map] in Hs.
+  cbn [depth_ok forallb] in Hdep. apply andb_true_iff in Hdep as [Hdep Hdl]. apply andb_true_iff in Hdep as [Ha Ht].
+  apply andb_true_iff in Hdl as [_ Hdl]. apply andb_true_iff in Hdl as [Hdv _]. apply N.leb_le in Ha, Ht.
+  apply andb_true_iff in Hdv as [_ Hdv].
+  destruct (inc_struct_ok (s_dep st) Hd Ha Ht) as (d' & Hinc & Hd' & E1 & E2 & E3).
+  rewrite (enum_begin_ok st idx (SStruct (map vsig l)) d' Hs Hv Hinc). cbn [bind].
+  destruct (after_idx_props st idx d') as (Pp & Pn & Ps & Pv & Pd & Pe & Pc).
+  rewrite marshal_struct in Hlen. cbv zeta in Hlen. cbn [mseq] in Hlen. rewrite marshal_struct in Hlen. cbv zeta in Hlen.
+  cbn [marshal] in Hlen. rewrite !len_app, len_enc in Hlen.
+  cbn [fds_of nfds] in Hn. unfold nfds in Hn. cbn [fds_of map concat length app] in Hn. rewrite app_nil_r in Hn.
+  set (p0 := pad (abs_pos st) 8) in *. set (p1 := pad (abs_pos st + len p0) 4) in *.
+  replace (nfd st + nfds (VU32 idx)) with (nfd st) in Hlen by (unfold nfds; cbn; lia).
+  replace (abs_pos st + len p0 + (len p1 + N.of_nat 4)) with (abs_pos st + len p0 + len p1 + 4) in Hlen by lia.
+  set (q := abs_pos st + len p0 + len p1 + 4) in *.
+  set (p2 := pad q 8) in *.
+  set (A := after_idx st idx d') in *.
+  set (st4 := set_sig (padded A 8) (SStruct (map vsig l))).
+  assert (Q4 : abs_pos st4 = q + len p2).
+  { subst st4. change (abs_pos (set_sig ?s _)) with (abs_pos s). rewrite padded_grow, abs_pos_grow, Pp. reflexivity. }
+  assert (N4 : nfd st4 = nfd st).
+  { subst st4. change (nfd (set_sig ?s _)) with (nfd s). rewrite padded_grow, nfd_grow, Pn. cbn. lia. }
+  pose proof (fieldsx_ok o xs l HF st4 [] eq_refl) as G.
+  change (s_vsign st4) with (s_vsign A) in G. change (s_dep st4) with (s_dep A) in G. change (s_e st4) with (s_e A) in G.
+  change (s_cfg st4) with (s_cfg A) in G. rewrite Pv, Pd, Pe, Pc, Q4, N4, E1, E2, E3 in G.
+  assert (Hdl' : forallb (depth_ok (d_struct (s_dep st) + 1) (d_array (s_dep st)) (d_variant (s_dep st))) l = true).
+  { rewrite forallb_forall in *. intros x Hin. eapply depth_ok_mono; [| | |exact (Hdv x Hin)]; lia. }
+  specialize (G Hv Hwl Hd' Hdl' ltac:(lia) ltac:(lia) Ho). cbn [length] in G. rewrite G. cbn [bind].
+  eexists. split; [reflexivity|]. split; [|reflexivity].
+  eapply weq_trans; [apply weq_set_dep|].
+  unfold after. rewrite marshal_struct. cbv zeta. cbn [mseq]. rewrite marshal_struct. cbv zeta. cbn [marshal fds_of map concat].
+  fold p0 p1. replace (nfd st + nfds (VU32 idx)) with (nfd st) by (unfold nfds; cbn; lia).
+  replace (abs_pos st + len p0 + len (p1 ++ enc (s_e st) 4 idx)) with q by (unfold q; rewrite len_app, len_enc; lia).
+  fold p2. subst st4. rewrite <- set_sig_grow. eapply weq_trans; [apply weq_set_sig|].
+  rewrite padded_grow, Pp. fold q p2. subst A. unfold after_idx. cbv zeta. fold p0 p1.
+  rewrite <- !set_dep_grow, !grow_grow. eapply weq_trans; [apply weq_set_dep|].
+  rewrite <- !app_assoc, !app_nil_r. cbn [app]. apply weq_refl.
+Qed.
+
+Lemma tuple_variantx_ok o idx xs l : Forall2 (fun x v => okw o x v false false) xs l ->
+  okw o (XTupleVariant idx xs) (VStruct [VU32 idx; VStruct l]) true false.
+Proof.
+  intros HF st Hw Hs Hv Hf Hn Hlen Ho. rewrite ser_tuple_variant.
+  destruct (fields_variantx_ok o idx xs l HF st Hw Hs Hv Hf Hn Hlen Ho) as (st' & E & W & D).
+  exists st'. split; [exact E|]. split; [exact W|]. split; [intros _; exact D|discriminate].
+Qed.
+Lemma struct_variantx_ok o idx (nxs : list (bytes * sval)) l : Forall2 (fun x v => okw o x v false false) (map snd nxs) l ->
+  okw o (XStructVariant idx nxs) (VStruct [VU32 idx; VStruct l]) true false.
+Proof.
+  intros HF st Hw Hs Hv Hf Hn Hlen Ho. rewrite ser_struct_variant.
+  destruct (fields_variantx_ok o idx (map snd nxs) l HF st Hw Hs Hv Hf Hn Hlen Ho) as (st' & E & W & D).
+  exists st'. split; [|split; [exact W|split; [intros _; exact D|discriminate]]].
+  rewrite <- E. destruct (enum_begin st idx) as [[[s1 i] sv]| |]; [|reflexivity|reflexivity]. cbn [bind].
+  now rewrite ser_nfields_fields.
 Qed.
